@@ -490,7 +490,7 @@ structure DecodeCfg where
   maxSize : Nat
   deriving Repr, BEq, DecidableEq
 
-def DecodeCfg.limit (c : DecodeCfg) : Nat := if c.maxSize = 0 then maxVli else c.maxSize
+def DecodeCfg.limit (c : DecodeCfg) : Nat := if c.maxSize = 0 then maxPacket else c.maxSize
 
 structure FeedResult where
   dec : Decoder
